@@ -665,6 +665,16 @@ def run_case(drv: Driver, case: dict) -> Result:
             amb = len(near) > len(exact)
             if amb:
                 res.ambiguous += 1
+                # within the look-up precision either way — but the weight of ONE trap position (or none),
+                # never of two different positions added up
+                totals = collections.defaultdict(Fraction)
+                for j in near:
+                    totals[tuple(given_mu[j])] += frac(given_w[j])
+                allowed = [0.0] + [float(v) for v in totals.values()]
+                if min(abs(got[i] - a) for a in allowed) > 1e-12:
+                    fail("weight-lookup", f"qubit at {positions[i]} gets weight {got[i]}: the weights of several trap "
+                                          f"positions one micro-unit away added up (traps {given_mu}, weights {given_w})",
+                         cause="double-count")
                 continue
             if abs(Fraction(got[i]) - qw_model[i]) > Fraction(1, 10**12):
                 res.diverge.append(("weight-lookup", f"position {positions[i]} real={got[i]} model={qw_model[i]}"))
